@@ -851,7 +851,12 @@ Definition env_unpickle (m n : bytes) (args : list val) (h : heap) : eres :=
   else if str_eqb n s_Target then
     match args with [a] => EOk a h | _ => EErr end
   else if str_eqb n s_Recursive then
-    match args with [a] => EOk (VTuple [VStr s_recursive_function; a]) h | _ => EErr end
+    (* since 7738be5 the placeholder carries (name, ordinal); records with the old one-element form still decode *)
+    match args with
+    | [a] => EOk (VTuple [VStr s_recursive_function; a]) h
+    | [a; b] => EOk (VTuple [VStr s_recursive_function; a; b]) h
+    | _ => EErr
+    end
   else if str_eqb n s_Builtin then
     match args with [] => EOk (VTuple []) h | _ => EErr end
   else if str_eqb n s_FunctionCode then
